@@ -45,7 +45,7 @@ let crash_name = function
   | CValueError -> "ValueError" | CTypeError -> "TypeError" | CUnboundLocal -> "UnboundLocalError"
   | CAttributeError -> "AttributeError" | CAssertion -> "AssertionError" | CIndexError -> "IndexError"
   | CKeyError -> "KeyError" | CUnicodeError -> "UnicodeError" | CRecursion -> "RecursionError"
-  | COutOfFuel -> "OutOfFuel" | CNotImplemented -> "NotImplementedError"
+  | COutOfFuel -> "OutOfFuel" | CNotImplemented -> "NotImplementedError" | CStructError -> "error"
 
 (* ---------- intexpr ---------- *)
 let binop_s = function Add -> "+" | Sub -> "-" | Mult -> "*" | Div -> "/" | Mod -> "%"
@@ -279,6 +279,21 @@ let ldiag_s = function
   | DDupPoedit true -> "dup-poedit country"
   | DUnknownPoedit nm -> "unknown-poedit " ^ out_str nm
   | DUnable -> "unable"
+(* ---------- MO parser ---------- *)
+let opt_str = function None -> "-" | Some l -> out_str l
+let mo_msg_s = function
+  | MMagic -> "magic" | MMajor n -> "major " ^ ns n | MTruncated -> "truncated"
+  | MIdNotTerminated -> "id-not-terminated" | MStrNotTerminated -> "str-not-terminated"
+  | MIdNul -> "id-nul" | MStrNul -> "str-nul" | MDuplicate -> "duplicate" | MNotSorted -> "not-sorted"
+let mo_entry_s (e : mo_entry) =
+  "E " ^ opt_str e.e_ctxt ^ " " ^ out_str e.e_id ^ " " ^ opt_str e.e_plural ^ " " ^ String.concat ";" (List.map out_str e.e_strs)
+let mo_run_s asc enc0 f =
+  let ((es, enc), r) = mo_run asc enc0 f in
+  let st = match r with
+    | Ok h -> "ok hidden=" ^ (if h then "1" else "0")
+    | Err m -> "err " ^ mo_msg_s m
+    | Crash c -> "crash " ^ crash_name c in
+  String.concat " # " ((st :: ("cs=" ^ opt_str enc) :: List.map mo_entry_s es))
 
 (* ---------- dispatch ---------- *)
 let handle (op : string) (a : string array) : string =
@@ -447,6 +462,12 @@ let handle (op : string) (a : string array) : string =
        String.concat " | " (List.map ldiag_s ds) ^ " || " ^ (match lang with None -> "none" | Some l -> lang_s l)
      | Err e -> "crash LanguageError"
      | Crash c -> "crash " ^ crash_name c)
+  | "morun" -> (* enc0 ('-' = None) bytes ; the oracle asc is instantiated by const true and const false *)
+    let enc0 = if a.(0) = "-" then None else Some (arg_str a.(0)) in
+    let f = arg_str a.(1) in
+    let r1 = mo_run_s (fun _ -> true) enc0 f in
+    let r0 = mo_run_s (fun _ -> false) enc0 f in
+    if r1 = r0 then r1 else r1 ^ " @@ " ^ r0
   | _ -> "unknown-op " ^ op
 
 let () =
